@@ -17,11 +17,19 @@ ASSUMPTIONS = [
     'content (version byte + hash / hrp + witness version + program); the harness encodes/decodes with its own reference codecs',
     'hash160/sha256 of keys and redeem scripts are supplied to the model as oracle values computed by hashlib; scripts containing '
     'key- or signature-shaped pushes are not modelled (Key()/Signature parsing belongs to C04/C13)',
+    'the push classifier of the script parser (scripts.get_data_type: signature / key / data / other by length and leading bytes) is '
+    'tied to the model by a grid of 14742 probes regenerated on every run (Gen/GenDataType.v, theorem push_classifier_is_modelled); '
+    'encoding.to_bytes on binary arguments is modelled (lib_to_bytes) and compared on payloads that read as hexadecimal text',
+    'Transaction.parse(raw).outputs: the wire framing of the transaction is property C01; here the raw transaction is written by the '
+    'adapter byte by byte and the output it yields is compared with Output(lock_script=) of the model',
 ]
 RULE = ('exhaustive: networks x {p2pkh,p2sh,witness v0..16} x payload lengths {20,32} (+2..40 for v1+) x {zero, ff, random} payloads, '
-        'every creation path (address string, Address.parse object, Address(...) object, HDKey, public key, public hash, raw script) '
-        'through Output and Transaction.add_output; every ordered pair of networks for foreign addresses; malformed script stream; '
-        'non-trivial = the implementation returns an output (not an error); distinct by request')
+        'every creation path (address string, Address.parse object, Address(hashed_data=/data=) object, HDKey in six construction forms '
+        'x witness type x multisig flag, Key object, public key, public hash, raw script, combinations of these with script_type= / '
+        'encoding= / witver= hints) through Output, Transaction.add_output, Transaction.parse of a raw transaction and '
+        'Transaction.raw()+parse(); adversarial payloads (about 100 per length: DER-signature, public-key, script-template, opcode, '
+        'push-header, number and text shapes) for every standard type in both directions; every ordered pair of networks for foreign '
+        'addresses; malformed script stream; non-trivial = the implementation returns an output (not an error); distinct by request')
 
 # ---------------------------------------------------------------- independent reference codecs (BIP13 / BIP173 / BIP350)
 B58 = '123456789ABCDEFGHJKLMNPQRSTUVWXYZabcdefghijkmnopqrstuvwxyz'
@@ -73,6 +81,78 @@ def segwit_addr(hrp, witver, prog):
     pm = _polymod(exp + data + [0] * 6) ^ const
     chk = [(pm >> 5 * (5 - i)) & 31 for i in range(6)]
     return hrp + '1' + ''.join(CHARSET[d] for d in data + chk)
+
+
+def b58check_decode(s):
+    """payload (version byte + body) of a Base58Check string, None when malformed"""
+    n = 0
+    for ch in s:
+        i = B58.find(ch)
+        if i < 0:
+            return None
+        n = n * 58 + i
+    pad = len(s) - len(s.lstrip('1'))
+    raw = b'\0' * pad + (n.to_bytes((n.bit_length() + 7) // 8, 'big') if n else b'')
+    if len(raw) < 5 or dsha(raw[:-4])[:4] != raw[-4:]:
+        return None
+    return raw[:-4]
+
+
+def segwit_decode(s):
+    """(hrp, witness version, program) of a BIP173/BIP350 address, None when malformed"""
+    if s.lower() != s and s.upper() != s:
+        return None
+    s = s.lower()
+    pos = s.rfind('1')
+    if pos < 1 or pos + 7 > len(s):
+        return None
+    hrp, data = s[:pos], []
+    for ch in s[pos + 1:]:
+        i = CHARSET.find(ch)
+        if i < 0:
+            return None
+        data.append(i)
+    exp = [ord(x) >> 5 for x in hrp] + [0] + [ord(x) & 31 for x in hrp]
+    witver = data[0]
+    if _polymod(exp + data) != (1 if witver == 0 else 0x2bc830a3):
+        return None
+    acc, bits, prog = 0, 0, []
+    for v in data[1:-6]:
+        acc = (acc << 5) | v
+        bits += 5
+        while bits >= 8:
+            bits -= 8
+            prog.append((acc >> bits) & 255)
+    if bits >= 5 or (acc & ((1 << bits) - 1)):
+        return None
+    return hrp, witver, bytes(prog)
+
+
+def decode_address(net, s):
+    """the destination (kind, witver, payload) an address string denotes on network net, from the string alone; None = none"""
+    pa, ps, hrp = nets()[net][:3]
+    r = segwit_decode(s)
+    if r is not None:
+        return ('wit', r[1], r[2]) if r[0] == hrp else None
+    b = b58check_decode(s)
+    if b is None:
+        return None
+    if b[:1] == pa:
+        return ('p2pkh', 0, b[1:])
+    if b[:1] == ps:
+        return ('p2sh', 0, b[1:])
+    return None
+
+
+def is_hexlike(b):
+    """byte strings encoding.to_bytes does not leave alone: they read as hexadecimal text (class ascii_hex_payload)"""
+    if not b:
+        return False
+    try:
+        bytes.fromhex(b.decode())
+        return True
+    except (ValueError, TypeError):
+        return False
 
 
 def hx(b):
@@ -224,6 +304,8 @@ def obj_dest(st, enc, wv, h):
 
 
 def hd_dest(wt, ms, pub):
+    """the destination an HD key stands for: single-signature keys P2PKH / P2WPKH / P2SH-P2WPKH of the key (BIP44/84/49),
+    multisig cosigner keys P2SH / P2WSH / P2SH-P2WSH (BIP45/48)"""
     if wt == 'legacy':
         return ('p2sh' if ms else 'p2pkh', 0, h160(pub))
     if wt == 'segwit':
@@ -233,8 +315,89 @@ def hd_dest(wt, ms, pub):
     return ('p2sh', 0, h160(b'\x00\x14' + h160(pub)))
 
 
+HD_FORMS = ('raw', 'pubkc', 'priv64', 'privkc', 'keyobj', 'public')
+
+
+def hd_effective_ms(form, ms):
+    # HDKey(<raw public key bytes>, multisig=True): the key-format guess overrides the argument (not this property's business)
+    return ms and form != 'raw'
+
+
+def data_dest(st, enc, wv, data):
+    """destination of Address(data=<public key or script>, script_type=st, encoding=enc, witver=wv) for coherent arguments"""
+    hh, ss = h160(data), hashlib.sha256(data).digest()
+    if st in ('p2pkh', 'p2sh') and enc in ('-', 'base58') and wv == 0:
+        return (st, 0, hh)
+    if st == 'p2wpkh' and enc in ('-', 'bech32') and wv == 0:
+        return ('wit', 0, hh)
+    if st == 'p2wsh' and enc in ('-', 'bech32') and wv == 0:
+        return ('wit', 0, ss)
+    if st == 'p2sh_p2wpkh' and enc in ('-', 'base58') and wv == 0:
+        return ('p2sh', 0, h160(b'\x00\x14' + hh))
+    if st == 'p2sh_p2wsh' and enc in ('-', 'base58') and wv == 0:
+        return ('p2sh', 0, h160(b'\x00\x20' + ss))
+    if st == '-' and wv == 0:
+        return ('p2pkh', 0, hh) if enc == 'base58' else ('wit', 0, hh)
+    return None            # p2tr from data (the library hashes the data, no taproot tweak): consistency only
+
+
+def hints_of(t):
+    """gen request -> (address tuple | None, address string | None, hash, pub, lock, st, wv, enc)"""
+    a = untok(t[3]) if t[3] != '-' else None
+    return a, (t[4] if t[4] != '-' else None), unhx(t[5]), unhx(t[6]), unhx(t[7]), t[8], int(t[9]), t[10]
+
+
+def hints_contradict(d, h, pub, lock, st, wv, enc, primary):
+    """does a hint say something else than the destination d (given by the address, or by the script when primary = 'lock')?"""
+    if st != '-' and st != dest_type(d):
+        return True
+    if enc != '-' and enc != ('base58' if d[0] in ('p2pkh', 'p2sh') else 'bech32'):
+        return True
+    if h and h != d[2]:
+        return True
+    if primary != 'lock' and lock and lock != dest_script(d):
+        return True
+    if pub and not (d[0] == 'p2pkh' or (d[0] == 'wit' and d[1] == 0 and len(d[2]) == 20)) :
+        return True
+    if pub and h160(pub) != d[2]:
+        return True
+    if wv and wv != d[1]:
+        return True
+    return False
+
+
+def gen_expect(t):
+    N = t[1]
+    a, s, h, pub, lock, st, wv, enc = hints_of(t)
+    if a is not None:
+        d = addr_dest(N, a)
+        if d is None:
+            return 'ERR'
+        if not in_property(d) or hints_contradict(d, h, pub, lock, st, wv, enc, 'addr'):
+            return None
+        return ok_exp(N, d, s)
+    if lock:
+        d = classify(lock)
+        if d is None or not in_property(d) or hints_contradict(d, h, pub, lock, st, wv, enc, 'lock'):
+            return None
+        return ok_exp(N, d)
+    return None
+
+
 def expectation(t):
     """None = the property says nothing about this request; 'ERR' = must be refused; tuple = exact answer"""
+    e = expectation_direct(t)
+    if t[2] == 'rt' and isinstance(e, tuple):
+        # the output after Transaction.raw() / parse(): only its script travelled; the parsed output must report the standard
+        # address of that script (for an address string: the very string the output was made from)
+        d = classify(unhx(e[0]))
+        if d is None or not in_property(d):
+            return None
+        return ok_exp(t[1], d)
+    return e
+
+
+def expectation_direct(t):
     k, N = t[0], t[1]
     if k == 'str':
         return expect_for_address(N, untok(t[4]), t[3])
@@ -249,8 +412,19 @@ def expectation(t):
             return None
         return expect_for_address(N, dest_addr(t[3], d), addr_str(dest_addr(t[3], d)))
     if k == 'hd':
-        d = hd_dest(t[4], t[5] == '1', unhx(t[6]))
+        form = t[10] if len(t) > 10 else 'raw'
+        d = hd_dest(t[4], hd_effective_ms(form, t[5] == '1'), unhx(t[6]))
         return expect_for_address(N, dest_addr(t[3], d), addr_str(dest_addr(t[3], d)))
+    if k == 'key':
+        d = ('p2pkh', 0, h160(unhx(t[5])))
+        return expect_for_address(N, dest_addr(t[3], d), addr_str(dest_addr(t[3], d)))
+    if k == 'adata':
+        d = data_dest(t[4], t[5], int(t[6]), unhx(t[7]))
+        if d is None:
+            return None
+        return expect_for_address(N, dest_addr(t[3], d), addr_str(dest_addr(t[3], d)))
+    if k == 'gen':
+        return gen_expect(t)
     if k == 'pk':
         pub = unhx(t[5])
         if len(pub) != 33 or t[3] in ('p2wsh', 'p2pk'):
@@ -258,7 +432,7 @@ def expectation(t):
         d = obj_dest(t[3], t[4], 0, h160(pub))
         return None if d is None else ok_exp(N, d)
     if k == 'hash':
-        d = obj_dest(t[3], t[5], int(t[4]) if t[2] == 'out' else 0, unhx(t[6]))
+        d = obj_dest(t[3], t[5], int(t[4]) if t[2] != 'add' else 0, unhx(t[6]))
         if d is None or t[3] in ('p2sh_p2wpkh', 'p2sh_p2wsh'):
             return None
         return ok_exp(N, d)
@@ -290,20 +464,56 @@ def prop_check(c, out):
     for i in range(4):
         if f[i] != e[i]:
             return '%s: %s is %s, the standard value is %s' % (' '.join(t[:4])[:100], names[i], f[i][:90], e[i][:90])
+    return consistent(t[1], f)
+
+
+def consistent(N, f):
+    """second, independent look at an answer: the REPORTED address is decoded (own Base58Check / Bech32(m) decoders), the
+    standard script of what it denotes on the output's network is recomputed and compared with the reported script and type"""
+    if f[3] in ('-', 'ERR'):
+        return 'the output reports no address (%s) for script %s' % (f[3], f[0][:90])
+    d = decode_address(f[2], f[3])
+    if d is None:
+        return 'the reported address %s is not an address of network %s' % (f[3][:90], f[2])
+    if hx(dest_script(d)) != f[0]:
+        return 'locking script %s and reported address %s do not belong together (the address stands for %s)' % (
+            f[0][:90], f[3][:90], hx(dest_script(d))[:90])
+    if dest_type(d) != f[1]:
+        return 'reported script type %s, but address %s / script %s are %s' % (f[1], f[3][:90], f[0][:60], dest_type(d))
     return None
 
 
 # ---------------------------------------------------------------- which repairs does the tree have (decided by the known list)
-KNOWN_IDS = ('witver_ge2_script', 'foreign_network_address_object', 'p2sh_segwit_address_object')
+KNOWN_IDS = ('witver_ge2_script', 'foreign_network_address_object', 'p2sh_segwit_address_object', 'ascii_hex_payload',
+             'address_with_public_key')
+
+
+_STATUS = None
+
+
+def _status():
+    """class -> status of the findings recorded for this property (known_findings.json + VERIF_EXTRA_KNOWN), read once"""
+    global _STATUS
+    if _STATUS is None:
+        _STATUS = {(e.get('class') or e.get('id')): e.get('status') for e in load_known(PROP)}
+    return _STATUS
 
 
 def _active():
-    return set(e['class'] for e in load_known(PROP) if e.get('status') == 'known')
+    return set(k for k, v in _status().items() if v == 'known')
+
+
+def recorded(cls):
+    """The two classes found after the first round (ascii_hex_payload, address_with_public_key) fail on the unchanged library;
+    their inputs are generated once the finding is recorded — as `known` (excused by its class predicate, the model mirrors
+    the defect) or as `fixed` (the model mirrors the repair and the oracle judges at full strength)."""
+    return cls in _status()
 
 
 def flags():
-    a = _active()
-    return ''.join('0' if k in a else '1' for k in KNOWN_IDS)
+    a, st = _active(), _status()
+    return (''.join('0' if k in a else '1' for k in KNOWN_IDS[:3]) +
+            ''.join('1' if st.get(k) == 'fixed' else '0' for k in KNOWN_IDS[3:]))
 
 
 def model_req(c):
@@ -339,7 +549,7 @@ def _cls_netobj(c, io, mo):
         cand.sort(key=lambda n: -nets()[n][3])
         on = t[5] if t[5] != '-' else (cand[0] if cand else None)
         return on != t[1]
-    if t[0] in ('aobj', 'hd'):
+    if t[0] in ('aobj', 'hd', 'adata', 'key'):
         return t[1] != t[3]
     return False
 
@@ -349,8 +559,53 @@ def _cls_p2shobj(c, io, mo):
     return t[0] == 'aobj' and t[4] in ('p2sh_p2wpkh', 'p2sh_p2wsh')
 
 
+def req_byte_strings(t):
+    """every binary argument the request hands to the library, and the payloads of the address / script it is about"""
+    k = t[0]
+    out = []
+    if k in ('str', 'parse'):
+        a = untok(t[4])
+        out.append(a[2] if a[0] == 'b58' else a[3])
+    elif k == 'aobj':
+        out.append(unhx(t[7]))
+    elif k == 'adata':
+        out += [unhx(t[7]), unhx(t[8]), unhx(t[9])]
+    elif k == 'hd':
+        out += [unhx(t[6]), unhx(t[7]), unhx(t[8])]
+    elif k == 'key':
+        out += [unhx(t[5]), unhx(t[6])]
+    elif k == 'pk':
+        out += [unhx(t[5]), h160(unhx(t[5]))]
+    elif k == 'hash':
+        out.append(unhx(t[6]))
+    elif k == 'script':
+        s = unhx(t[3])
+        d = classify(s)
+        out += [s] + ([d[2]] if d else [])
+    elif k == 'gen':
+        a, _, h, pub, lock, _, _, _ = hints_of(t)
+        if a is not None:
+            out.append(a[2] if a[0] == 'b58' else a[3])
+        d = classify(lock) if lock else None
+        out += [h, pub, lock] + ([d[2]] if d else [])
+    return [b for b in out if b]
+
+
+def _cls_addrpk(c, io, mo):
+    """an address string next to a public key, no hash and no script: the address is not examined"""
+    t = c.req.split(' ')
+    if t[0] != 'gen':
+        return False
+    a, _, h, pub, lock, _, _, _ = hints_of(t)
+    return a is not None and bool(pub) and not h and not lock
+
+
+def _cls_hex(c, io, mo):
+    return any(is_hexlike(b) for b in req_byte_strings(c.req.split(' ')))
+
+
 _PRED = {'witver_ge2_script': _cls_witver, 'foreign_network_address_object': _cls_netobj,
-         'p2sh_segwit_address_object': _cls_p2shobj}
+         'p2sh_segwit_address_object': _cls_p2shobj, 'ascii_hex_payload': _cls_hex, 'address_with_public_key': _cls_addrpk}
 
 
 class _Known(dict):
@@ -374,14 +629,14 @@ def same(c, io, mo):
         a = untok(t[4])
         if a[0] == 'b58' and len(a[2]) != 20 and 'ERR' in (io, mo):
             return True                   # Base58 body of another length: accepted or refused by the string layer (C11 row 7)
-    if t[0] == 'aobj' and t[1] != t[3] and len(unhx(t[7])) != 20 and 'ERR' in (io, mo):
+    if t[0] in ('aobj',) and t[1] != t[3] and len(unhx(t[7])) != 20 and 'ERR' in (io, mo):
         return True                       # foreign object whose Base58 body has another length: same string-layer question
     fi, fm = io.split(' '), mo.split(' ')
     if len(fi) != 4 or len(fm) != 4 or fi[:3] != fm[:3]:
         return False
     m = fm[3]
     if m == 'given':
-        return fi[3] == t[3]
+        return fi[3] == (t[4] if t[0] == 'gen' else t[3])
     if m in ('ERR', '-'):
         return fi[3] == m
     if m.startswith('bech:') and int(m.split(':')[2]) < 0:
@@ -406,6 +661,92 @@ def payloads(rng, n, k):
     return r[:k]
 
 
+# ---------------------------------------------------------------- adversarial payloads
+# The script parser classifies pushed bytes by what they LOOK like (DER signature, public key, script to re-parse, plain
+# data: scripts.get_data_type), the address encoder looks for a "<version> <length>" header in programs of unusual length, and
+# encoding.to_bytes decodes binary arguments that read as hexadecimal text.  Random payloads never look like anything;
+# these do.
+G1X = bytes.fromhex('79be667ef9dcbbac55a06295ce870b07029bfcdb2dce28d959f2815b16f81798')
+TEMPLATE_OPS = (0x76, 0xa9, 0x14, 0x88, 0xac, 0x87, 0x00, 0x51, 0x60, 0x6a, 0xae, 0x20, 0x4c, 0x4d, 0x4e, 0x4f, 0x50, 0x61, 0x75)
+
+
+def _fit(b, n, fill=0x7f):
+    return (bytes(b) + bytes([fill]) * n)[:n]
+
+
+def _der_like(n, seqlen):
+    """30 <seqlen> 02 <lr> r 02 <ls> s <hash type>, n bytes in all (n >= 9)"""
+    body = n - 7
+    lr = max(1, body // 2)
+    ls = max(1, body - lr)
+    return _fit(bytes([0x30, seqlen & 0xff, 2, lr]) + b'\x11' * lr + bytes([2, ls]) + b'\x22' * ls + b'\x01', n)
+
+
+def adversarial(n, hexlike_too=False):
+    """[(tag, payload)]: payloads of n bytes that imitate every shape the library's content heuristics know"""
+    out = []
+
+    def add(tag, b):
+        out.append((tag, _fit(b, n)))
+    for sb in sorted({n - 4, n - 3, n - 2, n - 1, n, n + 1, 0x44, 0x45, 0x46, 0x47, 0x00, 0x02, 0x80, 0x81}):
+        if 0 <= sb <= 255:
+            add('der%d' % sb, bytes([0x30, sb, 2, 1]))                        # 30 <len> 02 01 ...
+            if n >= 9:
+                add('derfull%d' % sb, _der_like(n, sb))                       # a complete r/s structure
+    for p in (2, 3, 4, 5, 6, 7):
+        add('key%02x' % p, bytes([p]) + G1X)                                  # public key prefixes
+    for o in TEMPLATE_OPS:
+        add('op%02x' % o, bytes([o]) * n)                                     # opcodes of the templates / push opcodes
+        add('op%02xr' % o, bytes([o]) + bytes(range(1, n)))
+    add('cycle', bytes(TEMPLATE_OPS * 3))
+    if n >= 25:
+        add('p2pkh', b'\x76\xa9\x14' + bytes(range(20)) + b'\x88\xac' + b'\x61' * (n - 25))   # well-formed scripts
+    if n >= 23:
+        add('p2sh', b'\xa9\x14' + bytes(range(20)) + b'\x87' + b'\x61' * (n - 23))
+    if n >= 22:
+        add('p2wpkh', b'\x00\x14' + bytes(range(20)) + b'\x61' * (n - 22))
+    if n >= 3:
+        add('opreturn', bytes([0x6a, n - 2]) + bytes(range(n - 2)))
+        add('push', bytes([n - 1]) + bytes(range(n - 1)))                     # one push filling the payload
+        add('pushdata1', bytes([0x4c, n - 2]) + bytes(range(n - 2)))
+        add('push_short', bytes([n]) + bytes(range(n - 1)))                   # a push longer than what follows
+        for v, name in ((0x00, 'hdr0'), (0x51, 'hdr1'), (0x60, 'hdr16'), (0x4f, 'hdr4f'), (0x30, 'hdr30')):
+            add(name, bytes([v, n - 2]) + bytes(range(n - 2)))                # "<version> <length> <program>"
+    if n >= 4:
+        add('pushdata2', bytes([0x4d, (n - 3) & 0xff, 0]) + bytes(range(n - 3)))
+    add('ops', bytes([0x51, 0x52, 0x93, 0x53, 0x87] * 8))
+    add('nops', b'\x61' * n)
+    add('multisig', b'\x51\x21\x02' + G1X)
+    if n >= 37:
+        add('multisig11', b'\x51\x21\x02' + G1X + b'\x51\xae' + b'\x61' * (n - 37))
+    if n >= 35:
+        add('p2pk', b'\x21\x02' + G1X + b'\xac' + b'\x61' * (n - 35))
+    add('zero', bytes(n))
+    add('ff', b'\xff' * n)
+    add('lead0', b'\x00' + b'\xff' * (n - 1))
+    add('trail0', b'\xff' * (n - 1) + b'\x00')
+    add('one', b'\x01' + bytes(n - 1))
+    add('neg', b'\x80' * n)
+    add('hexlower', b'0123456789abcdef' * 3)                                   # text
+    add('hexupper', b'ABCDEF0123456789' * 3)
+    add('hexzero', b'0' * n)
+    add('hexblank', b' ' * n)
+    add('hexws', (b'ab ' * 14)[:n] if n % 3 == 0 else b'ab' * (n // 2) + b' ' * (n % 2))
+    add('hexnl', (b'0f\n' * 14)[:n] if n % 3 == 0 else b'0f' * (n // 2) + b'\t' * (n % 2))
+    add('hexodd', b'abc' + b'\x7f' * max(0, n - 3))
+    add('hexg', b'abcdefg' * 6)
+    add('ascii', b'hello world, this is a text payload ....')
+    add('b58', b'1A1zP1eP5QGefi2DMPTfTL5SLmv7DivfNa123456')
+    add('bech', b'bc1qw508d6qejxtdg4y5r3zarvary0c5xw7kv8f3')
+    add('utf8bad', b'\xc3\x28' * (n // 2) + b'a' * (n % 2))
+    seen, res = set(), []
+    for t, b in out:
+        if b not in seen and (hexlike_too or not is_hexlike(b)):
+            seen.add(b)
+            res.append((t, b))
+    return res
+
+
 def orc(pairs):
     return ','.join('%s:%s' % (hx(i), hx(o)) for i, o in pairs) or '-'
 
@@ -416,9 +757,16 @@ def gen_cases(rng, tier):
     names = list(NT)
     cs = []
     K = 12 if big else 3          # payloads per (kind, length)
+    # payloads that read as hexadecimal text violate the property on the unchanged library (finding ascii_hex_payload):
+    # they are generated once the finding is recorded (known_findings.json / VERIF_EXTRA_KNOWN), and then excused as known
+    HEX_ON = recorded('ascii_hex_payload')
 
     def add(kind, *tk):
         cs.append(Case(kind, ' '.join([kind] + [str(x) for x in tk])))
+
+    gen_adversarial(rng, big, names, add, HEX_ON)
+    gen_objects(rng, big, names, add)
+    gen_hints(rng, big, names, add, recorded('address_with_public_key'))
 
     def dests(full):
         """destinations: p2pkh/p2sh 20, witness v0 20/32, v1..16 20/32; with full also 2..40 for v1+"""
@@ -555,6 +903,130 @@ def gen_cases(rng, tier):
             if len(s) and not (len(s) in (33, 65) and s[0] in (2, 3, 4)):
                 add('script', N, 'out', hx(bytes(s)))
     return cs
+
+
+G_PRIV = {G1: 1, G2: 2, G3: 3, G1U: 1}
+
+
+def gen_adversarial(rng, big, names, add, hex_on):
+    """7. adversarial payloads, every standard type, both directions, all four ways of making / reading an output"""
+    full = ('bitcoin', 'litecoin')
+    for N in names:
+        for n in (20, 32):
+            pl = adversarial(n, hex_on)
+            if N not in full and not big:
+                # the other networks: a rotating dozen of shapes plus, always, the DER / key / text ones
+                keep = set(rng.sample(range(len(pl)), 12))
+                pl = [x for i, x in enumerate(pl) if i in keep or x[0].startswith(('der%d' % (n - 3), 'derfull%d' % (n - 3), 'hex'))]
+            for tag, h in pl:
+                ds = [('wit', 0, h), ('wit', 1, h)] + ([('wit', 16, h)] if N in full or big else [])
+                if n == 20:
+                    ds += [('p2pkh', 0, h), ('p2sh', 0, h)]
+                for d in ds:
+                    a = dest_addr(N, d)
+                    s = addr_str(a)
+                    sc, st = hx(dest_script(d)), dest_type(d)
+                    for via in ('out', 'add', 'tx') if N in full or big else ('out', 'tx'):
+                        add('script', N, via, sc)
+                    add('str', N, 'out', s, tok(a))
+                    add('str', N, 'rt', s, tok(a))
+                    add('hash', N, 'out', st, d[1], '-', hx(h), '-')
+                    if N in full or big:
+                        add('parse', N, 'out', s, tok(a), N)
+                        add('aobj', N, 'out', N, st, '-', d[1], hx(h), '-')
+                        add('hash', N, 'rt', st, d[1], '-', hx(h), '-')
+                        if d[0] != 'wit' or d[1] == 0:
+                            add('gen', N, 'out', tok(a), s, hx(h), '-', sc, st, 0, '-', '-')
+    # program lengths 2..40 of witness versions 1+ (the parser re-parses such pushes as scripts, the address encoder looks for
+    # a "<version> <length>" header in them): model and implementation are compared, the property speaks about 20 / 32 only
+    for n in range(2, 41):
+        if n in (20, 32):
+            continue
+        pl = adversarial(n, hex_on)
+        if not big:
+            keep = set(rng.sample(range(len(pl)), 10))
+            pl = [x for i, x in enumerate(pl) if i in keep or x[0] in ('hdr0', 'hdr1', 'hdr16', 'hdr4f', 'hdr30', 'p2pkh', 'p2sh', 'p2wpkh')]
+        for tag, h in pl:
+            if len(h) in (33, 65) and h[0] in (2, 3, 4):
+                continue                                   # key-shaped pushes are outside the model (UNMODELLED)
+            for v in (1, 16) if not big else (1, 2, 16):
+                d = ('wit', v, h)
+                a = dest_addr('bitcoin', d)
+                add('script', 'bitcoin', 'out', hx(dest_script(d)))
+                add('script', 'bitcoin', 'tx', hx(dest_script(d)))
+                add('str', 'bitcoin', 'out', addr_str(a), tok(a))
+
+
+def gen_objects(rng, big, names, add):
+    """8. destination OBJECTS with every flag: HDKey (six ways of constructing it x witness type x multisig), Key objects,
+    Address(data=...) objects; on their own network and on another one"""
+    pubs = (G1, G2, G3) if big else (G1,)
+    for A in names:
+        others = [x for x in names if x != A]
+        for wt in ('legacy', 'segwit', 'p2sh-segwit'):
+            for ms in (0, 1):
+                for form in HD_FORMS:
+                    for pub in pubs:
+                        hh, ss = h160(pub), hashlib.sha256(pub).digest()
+                        o = orc([(pub, hh), (b'\x00\x14' + hh, h160(b'\x00\x14' + hh)), (b'\x00\x20' + ss, h160(b'\x00\x20' + ss))])
+                        for N, via in ((A, 'out'), (A, 'add'), (A, 'rt'), (rng.choice(others), 'add')):
+                            add('hd', N, via, A, wt, ms, hx(pub), hx(hh), hx(ss), o, form)
+        for pub in (G1, G1U, G2):
+            hh, ss = h160(pub), hashlib.sha256(pub).digest()
+            for form in ('kpub', 'kprv'):
+                for N, via in ((A, 'out'), (A, 'add'), (A, 'rt'), (rng.choice(others), 'out')):
+                    add('key', N, via, A, form, hx(pub), hx(hh), hx(ss), '-')
+        for data in (G1, G1U, b'\x51\x21' + G1 + b'\x51\xae'):
+            hh, ss = h160(data), hashlib.sha256(data).digest()
+            o = orc([(data, hh), (b'\x00\x14' + hh, h160(b'\x00\x14' + hh)), (b'\x00\x20' + ss, h160(b'\x00\x20' + ss))])
+            for st in ('-', 'p2pkh', 'p2sh', 'p2wpkh', 'p2wsh', 'p2tr', 'p2sh_p2wpkh', 'p2sh_p2wsh'):
+                for e in ('-', 'base58', 'bech32'):
+                    for wv in ((0, 1, 2) if st == 'p2tr' else (0,)):
+                        for N, via in ((A, 'out'), (A, 'rt')) + (((rng.choice(others), 'out'),) if e == '-' else ()):
+                            add('adata', N, via, A, st, e, wv, hx(data), hx(hh), hx(ss), o)
+
+
+def gen_hints(rng, big, names, add, addrpk_on):
+    """9. an address (or a script) together with hints: script_type=, encoding=, witver=, public_hash=, public_key=, lock_script=.
+    Hints that agree with the destination must not change anything; contradicting hints are compared with the model only."""
+    for N in names if big else ('bitcoin', 'testnet', 'litecoin', 'dogecoin'):
+        h20, h32 = payloads(rng, 20, 3)[2], payloads(rng, 32, 3)[2]
+        kh = h160(G1)
+        for d in (('p2pkh', 0, h20), ('p2sh', 0, h20), ('wit', 0, h20), ('wit', 0, h32), ('wit', 1, h32), ('wit', 16, h20),
+                  ('p2pkh', 0, kh), ('wit', 0, kh)):
+            a = dest_addr(N, d)
+            s, sc, st = addr_str(a), hx(dest_script(d)), dest_type(d)
+            enc = 'base58' if d[0] in ('p2pkh', 'p2sh') else 'bech32'
+            other_h = bytes(x ^ 0x55 for x in d[2])
+            other_sc = hx(dest_script(('p2pkh', 0, other_h[:20])))
+            o = orc([(G1, kh)])
+            pub = hx(G1) if d[2] == kh and (addrpk_on or d[0] == 'wit') else '-'
+            for via in ('out', 'rt'):
+                # agreeing hints, one at a time and all together
+                for hh, pp, ll, ss, ww, ee in (('-', '-', '-', st, 0, '-'), ('-', '-', '-', '-', 0, enc), (hx(d[2]), '-', '-', '-', 0, '-'),
+                                               ('-', '-', sc, '-', 0, '-'), ('-', '-', '-', '-', d[1], '-'), ('-', pub, '-', '-', 0, '-'),
+                                               (hx(d[2]), pub, sc, st, d[1], enc), ('-', pub, '-', st, 0, enc)):
+                    add('gen', N, via, tok(a), s, hh, pp, ll, ss, ww, ee, o)
+                    add('gen', N, via, '-', '-', hh, pp, sc, ss, ww, ee, o)          # the same hints next to the script
+            # contradicting hints
+            for st2 in ('p2pkh', 'p2sh', 'p2wpkh', 'p2wsh', 'p2tr', 'p2pk', 'nulldata'):
+                if st2 != st:
+                    add('gen', N, 'out', tok(a), s, '-', '-', '-', st2, 0, '-', o)
+                    add('gen', N, 'out', '-', '-', '-', '-', sc, st2, 0, '-', o)
+            add('gen', N, 'out', tok(a), s, '-', '-', '-', '-', 0, 'bech32' if enc == 'base58' else 'base58', o)
+            add('gen', N, 'out', '-', '-', '-', '-', sc, '-', 0, 'bech32' if enc == 'base58' else 'base58', o)
+            add('gen', N, 'out', tok(a), s, hx(other_h), '-', '-', '-', 0, '-', o)
+            add('gen', N, 'out', '-', '-', hx(other_h), '-', sc, '-', 0, '-', o)
+            add('gen', N, 'out', tok(a), s, '-', '-', other_sc, '-', 0, '-', o)
+            add('gen', N, 'out', tok(a), s, hx(d[2]), hx(G2), '-', '-', 0, '-', orc([(G2, h160(G2))]))
+            if addrpk_on:
+                # an address next to a public key: another key, and an address of another network (must be refused)
+                add('gen', N, 'out', tok(a), s, '-', hx(G2), '-', '-', 0, '-', orc([(G2, h160(G2))]))
+                F = 'litecoin' if N != 'litecoin' else 'bitcoin'
+                fa = dest_addr(F, d)
+                add('gen', N, 'out', tok(fa), addr_str(fa), '-', hx(G1), '-', '-', 0, '-', o)
+            add('gen', N, 'out', '-', '-', '-', '-', sc, '-', 5, '-', o)
+            add('gen', N, 'out', tok(a), s, '-', '-', '-', '-', 5, '-', o)
 
 
 def reproduce_known(entry, rundir):
